@@ -14,6 +14,12 @@ import (
 	sn "verif/simnode"
 )
 
+// RulelessAccount / ForeignAccount own outputs but have no access-control rule on this chain.
+const (
+	RulelessAccount = "XC3333333333333333@xuper"
+	ForeignAccount  = "XC3333333333333333@hello"
+)
+
 // Account is the multi-key account created by the setup block.
 const Account = "XC1111111111111111@xuper"
 
@@ -39,6 +45,9 @@ type World struct {
 	N     *sn.Node
 	Items []Item
 	nonce int
+	// RulelessFunding is the confirmed transaction whose outputs 0 and 1 belong to
+	// RulelessAccount (100) and ForeignAccount (200)
+	RulelessFunding *pb.Transaction
 }
 
 func (w *World) nn() string { w.nonce++; return fmt.Sprintf("corpus-%d", w.nonce) }
@@ -120,6 +129,13 @@ func buildOpt(cfg sn.Config, coins int) (*World, error) {
 	x, err = sn.BuildTx(sn.TxSpec{Initiator: k0.Address, Signers: []*sn.Key{k0}, Inputs: ins, Nonce: w.nn(), Timestamp: 11,
 		Outputs: change([]sn.Out{{To: Account, Amount: big.NewInt(3000)}, {To: Account, Amount: big.NewInt(2000)}}, k0.Address, tot, 5000)})
 	admit(w.must(x, err, "fund account"))
+	// 2b. outputs owned by account NAMES that have no rule on this chain: one never created, one
+	// of another chain (nobody can ever satisfy a rule for them here, so they are unspendable)
+	ins, tot = w.sel(k0.Address, 300)
+	x, err = sn.BuildTx(sn.TxSpec{Initiator: k0.Address, Signers: []*sn.Key{k0}, Inputs: ins, Nonce: w.nn(), Timestamp: 12,
+		Outputs: change([]sn.Out{{To: RulelessAccount, Amount: big.NewInt(100)}, {To: ForeignAccount, Amount: big.NewInt(200)}}, k0.Address, tot, 300)})
+	admit(w.must(x, err, "fund rule-less account names"))
+	w.RulelessFunding = x
 	// 3. fund the contract: output to the contract + request amount
 	p := (&sn.ProgBuilder{}).Put("vb0", []byte("seed"), []byte("1"))
 	creq := sn.VerifReq(sn.VerifContract, p.String())
